@@ -14,10 +14,11 @@ from .. import attrs_common as AC
 OPERANDS = ['a', 'b', 'c', 'a b', ' a ', 'b  c', '', 'A', 'a-b']
 NAMES = ['a', 'b', 'c', 'A', 'a-b', '', 'a b', 'None']
 
-VIEWS = ([['classList'], ['classNames'], ['className'], ['attr', 'class'], ['item', 'class'], ['get', 'class'], ['attr', 'CLASS']]
-         + [['hasClass', n] for n in NAMES]
-         + [['has', 'class'], ['has', 'Class'], ['in', 'class'], ['keys'], ['iter'], ['items'], ['list'], ['dict'], ['domkeys'],
-            ['domitem', 'class'], ['startTag'], ['reparse'], ['clone']])
+# groups: the views of one group are read on one fresh element, every group on its own fresh element
+VIEWS = ([[v] for v in (['classList'], ['classNames'], ['className'], ['attr', 'class'], ['item', 'class'], ['get', 'class'], ['attr', 'CLASS'])]
+         + [[['hasClass', n] for n in NAMES]]
+         + [[v] for v in (['has', 'class'], ['has', 'Class'], ['in', 'class'], ['keys'], ['iter'], ['items'], ['list'], ['dict'], ['domkeys'],
+                          ['domitem', 'class'], ['startTag'], ['reparse'], ['clone'])])
 
 COPY_VIEWS = ['clone', 'copy', 'deepcopy', 'pickle', 'repr']
 
@@ -168,7 +169,7 @@ class Check(PropCheck):
         cv = rng.choice(COPY_VIEWS)
         if AC.is_void(tag) and (how == 'pickle' or cv == 'pickle'):
             tag = 'div'            # unpickling a void element loses isSelfClosing (C17's subject, not an attribute matter)
-        views = [v for v in VIEWS if v[0] != 'clone'] + [[cv]]
+        views = [g for g in VIEWS if g[0][0] != 'clone'] + [[[cv]]]
         if n <= 6:
             chk = list(range(n + 1))
         else:
